@@ -523,6 +523,25 @@ class C10:
             from .world import plant_eval
             if plant_eval(spec["plant"], spec["start"])[twin_t] > 0:
                 spec["optlog"] = [j == twin_t for j in range(spec["nt"])]
+        if r.random() < 0.1 and "probe_on_solution" not in spec["family"] and "tiny_weights" not in spec["family"]:
+            # every knob limited, every limit written as a plain integer (limits=(1, 5)), weights not 1: the limits reach the
+            # solver divided by the weights, which are not integers any more.  (Drawn last and only here, so that the problems of
+            # the other optimizer checks and the other C10 cases stay what they were.)
+            nk = spec["nk"]
+            spec["limits"], spec["start"] = [], []
+            for j in range(nk):
+                lo = r.choice([-3, -2, -1, 0, 1, 2])
+                hi = lo + r.choice([1, 2, 4])
+                spec["limits"].append([lo, hi])
+                spec["start"].append(round(r.uniform(lo, hi), 3))
+            spec["family"] = spec["family"] + "+int_limits"
+            spec["weights"] = [r.choice([0.5, 2.5, 10.0, 0.1, 4.0, 3.0]) for _ in range(nk)]
+            if r.random() < 0.5:
+                # limits not enforced on evaluation; the start is inside, and the optimizer clips its steps to the limits
+                spec["opts"]["check_limits"] = False
+            # calls drawn for the old limits may set a knob by hand: keep those values inside the new limits
+            case["calls"] = [("set_knob", c[1], round(min(max(c[2], spec["limits"][c[1]][0]), spec["limits"][c[1]][1]), 3)) if c[0] == "set_knob" else c
+                             for c in case["calls"]]
         return case
 
     @staticmethod
